@@ -36,6 +36,7 @@ type HarnessResult struct {
 	WallS       float64
 	Steps       int
 	MaxPaths    bool
+	StoppedEarly bool
 }
 
 type explorer struct {
@@ -51,6 +52,7 @@ type explorer struct {
 	inconSeen map[string]bool
 	violSeen map[string]bool
 	deadline time.Time
+	stoppedForViolation bool
 }
 
 func (e *Engine) Explore(h *HarnessSpec, workers int, maxPaths int, budget time.Duration) *HarnessResult {
@@ -133,7 +135,11 @@ func (x *explorer) worker(sol *Solver) {
 		}
 		if !x.deadline.IsZero() && time.Now().After(x.deadline) && (len(x.work) > 0 || x.active > 0) {
 			x.stop = true
-			x.res.MaxPaths = true
+			if x.stoppedForViolation {
+				x.res.StoppedEarly = true
+			} else {
+				x.res.MaxPaths = true
+			}
 		}
 		x.mu.Unlock()
 		x.cond.Broadcast()
@@ -179,6 +185,12 @@ func (x *explorer) merge(out *PathResult) {
 		}
 		x.violSeen[key] = true
 		r.Violations = append(r.Violations, v)
+		// a counterexample decides the check: look for a little longer, then stop
+		grace := time.Now().Add(30 * time.Second)
+		if x.deadline.IsZero() || grace.Before(x.deadline) {
+			x.deadline = grace
+			x.stoppedForViolation = true
+		}
 	}
 	if out.witness != nil && len(r.Witnesses) < 3 {
 		r.Witnesses = append(r.Witnesses, out.witness)
@@ -220,7 +232,7 @@ func (e *Engine) runPath(h *HarnessSpec, sol *Solver, prefix []int64) (out *Path
 		switch p := r.(type) {
 		case *pathEnd:
 			out.status = p.reason
-			if p.detail != "" {
+			if p.detail != "" && out.detail == "" {
 				out.detail = p.detail
 			}
 		case *progPanic:
